@@ -336,6 +336,22 @@ def base_catalogue():
         V("One", fields=[F("a", "u8", try_from=("u8", False)), F("b", "u8", missing_fn=True), F("c", "u8", map=True, default="trait")]),
         V("Two", rename="zwei", fields=[F("s", "String", from_=("String", True))]), V("Three")]))
     c.append(T("E15TaggedSingle", tag="only", variants=[V("Solo", fields=[F("z", "Option<u8>")])]))
+    # a variant-level rename_all must not leak into later variants
+    c.append(T("E16VariantOrder", tag="shape", variants=[
+        V("Circle", rename_all="camelCase", fields=[F("center_x", "u8"), F("radius_len", "u8")]),
+        V("Square", fields=[F("center_x", "u8"), F("side_len", "u8")]),
+        V("Wide", rename_all="lowercase", fields=[F("Upper_Case", "u8")]),
+        V("Last", fields=[F("Upper_Case", "u8"), F("two_words", "u8")])]))
+    c.append(T("E17UnitValidate", validate=True, variants=[V("On"), V("Off")]))
+    # more than 20 fields with skipped ones in front: order of keys / accepted list must stay the declaration order
+    wide = []
+    for i in range(26):
+        if i in (0, 3, 7, 12):
+            wide.append(F("w%02d" % i, "u8", skip=True))
+        else:
+            wide.append(F("w%02d" % i, "u8", default="trait" if i % 5 == 0 else None))
+    c.append(T("S26VeryWide", deny="default", fields=wide))
+    c.append(T("E18WideVariant", tag="t", deny="fn", variants=[V("Big", fields=[F("v%02d" % i, "bool", skip=(i in (1, 2, 9))) for i in range(24)]), V("Small")]))
     return c
 
 
